@@ -139,6 +139,36 @@ Theorem C21_direct_mode_erl : forall prog direct epos,
 Proof. exact line_of_direct. Qed.
 Print Assumptions C21_direct_mode_erl.
 
+(* ---- READ: the error belongs to the READ line ----------------------------------------------------------
+   READ fetches its items from DATA statements elsewhere in the program; whatever it raises - Out of DATA,
+   Overflow when the item does not fit the variable, for the first or a later variable - is raised at the READ
+   statement: ERL and the message name the line of the READ, not the line of the DATA (C21_trap / C21_untrapped
+   _message with epos = pc st). *)
+Theorem C21_read_error_position : forall code st vs st' c epos,
+  nth_error code (pc st) = Some (SRead vs) -> pstep code st = PRaise st' c epos -> epos = pc st.
+Proof. exact read_raises_at_read. Qed.
+Print Assumptions C21_read_error_position.
+
+Theorem C21_read_overflow : forall code st v vs z dp',
+  nth_error code (pc st) = Some (SRead (v :: vs)) -> read_item code (dptr st) = Some (z, dp') ->
+  exact24 z = true -> in16 z = false -> pstep code st = PRaise st flow_E_OVERFLOW (pc st).
+Proof. exact read_overflow_raises. Qed.
+Print Assumptions C21_read_overflow.
+
+Theorem C21_read_out_of_data : forall code st v vs,
+  nth_error code (pc st) = Some (SRead (v :: vs)) -> read_item code (dptr st) = None ->
+  pstep code st = PRaise st flow_E_OUT_OF_DATA (pc st).
+Proof. exact read_out_of_data. Qed.
+Print Assumptions C21_read_out_of_data.
+
+(* 10 ON ERROR GOTO 100 / 20 READ A%,B% / 30 PRINT A%:END / 50 DATA 7,99999 / 100 PRINT ERR:PRINT ERL:RESUME NEXT
+   the second item does not fit B%: ERR 6, ERL 20 (the READ), not 50 (the DATA) *)
+Example C21_read_nonvacuous :
+  run_program [SLine 10; SOnErrorGoto 100; SLine 20; SRead [0%nat; 1%nat]; SLine 30; SPrint (EVar 0%nat); SEnd;
+               SLine 50; SData [7; 99999]; SLine 100; SPrint EErr; SPrint EErl; SResume RNext; SEndProg] 100
+  = ([6; 20; 7], Finished).
+Proof. vm_compute. reflexivity. Qed.
+
 (* ---- several commands: what a stop leaves behind ------------------------------------------------------
    The interpreter lives on between commands (run_session / after_halt in model/Flow.v).  Whatever message ended
    the program - error without handler, error inside the handler, No RESUME, ON ERROR GOTO 0 inside the handler,
@@ -183,6 +213,27 @@ Example C21_session_nonvacuous :
      SLine 110; SPrint EErr; SPrint EErl; SResume RNext]
     [CRun; CDirect [SGoto 10]] 200 (init_at 0)
   = [1; 6; 100; 1; 55555; 0; 1; 5; 20; 2; 3; 55555].
+Proof. vm_compute. reflexivity. Qed.
+
+(* RUN starts from the state of a fresh session (nothing survives, in particular not the switch that ON ERROR
+   GOTO n sets to make Division by zero / Overflow trappable: without a trap they are soft again, D23e);
+   a direct line keeps everything but the position *)
+Theorem C21_run_resets : forall prog st, start_command prog st CRun = (prog ++ [SEndProg], init_at 0).
+Proof. exact run_command_resets. Qed.
+Print Assumptions C21_run_resets.
+
+Theorem C21_direct_line_keeps_state : forall prog st line,
+  start_command prog st (CDirect line) = (prog ++ SEndProg :: line, set_pc st (S (length prog))).
+Proof. exact direct_command_keeps. Qed.
+Print Assumptions C21_direct_line_keeps_state.
+
+(* 10 PRINT 1\A%:ON ERROR GOTO 900:END / 900 RESUME NEXT, RUN twice: both times the division by zero is soft
+   (message 77711, machine infinity 88888), although the first run left ON ERROR GOTO 900 in force; typed at the
+   prompt afterwards the division is trapped by that handler (RESUME NEXT, then 5) *)
+Example C21_run_resets_nonvacuous :
+  run_session [SLine 10; SPrint (EIDiv (EConst 1) (EVar 0%nat)); SOnErrorGoto 900; SEnd; SLine 900; SResume RNext]
+    [CRun; CRun; CDirect [SPrint (EIDiv (EConst (-1)) (EConst 0)); SPrint (EConst 5)]] 100 (init_at 0)
+  = [0; 77711; 88888; 55555; 0; 77711; 88888; 55555; 0; 5; 55555].
 Proof. vm_compute. reflexivity. Qed.
 
 (* ---- non-vacuity ------------------------------------------------------------------------------------ *)
